@@ -63,7 +63,7 @@ def dataMember (doc : Document) (fields : GoMap (List GoString)) : Option Json :
 included only alongside data (sorted by ID), meta when non-empty, links with self,
 and the jsonapi member. `none` when marshaling fails (data of an unknown Go type). -/
 def documentTree (doc : Document) (fields : GoMap (List GoString)) (selfHref : GoString) : Option Json :=
-  if doc.data matches .other then none
+  if (doc.data matches .other) && doc.errors.isEmpty then none
   else
     let body : List (GoString × Json) :=
       if !doc.errors.isEmpty then [(K.errors, .arr (doc.errors.map ErrorObj.toJson))]
